@@ -489,10 +489,10 @@
         old.router_keys_spec().len() + new.router_keys_spec().len() <= usize::MAX,
         old.aspas_spec().len() + new.aspas_spec().len() <= usize::MAX,
     ensures
-        // C11: no change set is produced exactly when the two data sets are equal
+        // C11 + C14 (the serial moves exactly when the data changed): no change set is produced exactly when the two data sets are equal
         res is None <==> (old.origins_spec() == new.origins_spec()
             && old.router_keys_spec() == new.router_keys_spec() && old.aspas_spec() == new.aspas_spec()),
-        // C11: otherwise it is exactly the change from old to new (all three payload types), it is not
+        // C11 + C14 (serial advances by exactly one, wrapping): otherwise it is exactly the change from old to new (all three payload types), it is not
         // empty, its counters match its entries, and its serial is the given one plus one
         res matches Some(d) ==> d.describes(old, new) && !d.is_empty_spec() && d.counted()
             && d.serial.0 == wadd(serial.0, 1)
